@@ -8,8 +8,11 @@ EXTENDS Integers, Sequences, FiniteSets, TLC
 CONSTANTS EarlyMs,   \* tolerance for "before its scheduled time"
           DueMs      \* a scheduled time that passed this long before the final check must have led to a run
 
-VARIABLES n, ordered, running, committed, subs, begins, cancelled, pend, schedAt, prioQ, normQ, holder
-avars == <<n, ordered, running, committed, subs, begins, cancelled, pend, schedAt, prioQ, normQ, holder>>
+VARIABLES n, ordered, running, committed, subs, begins, cancelled, pend, schedAt, prioQ, normQ, holder,
+          mdMs,     \* max delay of the tasks in milliseconds
+          qsubT,    \* [task -> time of its last Queue/QueuePrioritized/StartASAP call, -1 = none since the last run]
+          lastKind  \* [task -> kind of its last submission]
+avars == <<n, ordered, running, committed, subs, begins, cancelled, pend, schedAt, prioQ, normQ, holder, mdMs, qsubT, lastKind>>
 
 T == 1..n
 F(v) == [k \in 1..n |-> v]
@@ -18,17 +21,22 @@ InSeq(q, k) == \E i \in 1..Len(q) : q[i] = k
 
 AbsInit == /\ n = 0 /\ ordered = FALSE /\ running = <<>> /\ committed = <<>> /\ subs = <<>> /\ begins = <<>>
            /\ cancelled = <<>> /\ pend = <<>> /\ schedAt = <<>> /\ prioQ = <<>> /\ normQ = <<>> /\ holder = 0
+           /\ mdMs = 0 /\ qsubT = <<>> /\ lastKind = <<>>
 
-Reset(k, ord) ==
+Reset(k, ord, md) ==
     /\ n' = k /\ ordered' = ord
     /\ running' = [i \in 1..k |-> FALSE] /\ committed' = [i \in 1..k |-> FALSE]
     /\ subs' = [i \in 1..k |-> 0] /\ begins' = [i \in 1..k |-> 0]
     /\ cancelled' = [i \in 1..k |-> FALSE] /\ pend' = [i \in 1..k |-> "none"] /\ schedAt' = [i \in 1..k |-> 0]
     /\ prioQ' = <<>> /\ normQ' = <<>> /\ holder' = 0
+    /\ mdMs' = md /\ qsubT' = [i \in 1..k |-> -1] /\ lastKind' = [i \in 1..k |-> "none"]
 
 \* a submission call begins (logged before the call, so that a run it causes is logged after it)
-Sub(k, kind, at) ==
+Sub(k, kind, at, t) ==
     /\ k \in T
+    /\ qsubT' = IF kind # "schedule" /\ ~cancelled[k] THEN [qsubT EXCEPT ![k] = t] ELSE qsubT
+    /\ lastKind' = [lastKind EXCEPT ![k] = kind]
+    /\ mdMs' = mdMs
     /\ subs' = [subs EXCEPT ![k] = @ + 1]
     /\ pend' = [pend EXCEPT ![k] = IF cancelled[k] THEN "none"
                                    ELSE IF kind = "schedule" THEN (IF @ = "queued" THEN "queued" ELSE "sched")
@@ -41,15 +49,27 @@ Sub(k, kind, at) ==
     /\ normQ' = IF ~cancelled[k] /\ kind = "queue" /\ ~InSeq(normQ, k) THEN Append(normQ, k) ELSE normQ
     /\ UNCHANGED <<n, ordered, running, committed, begins, cancelled, holder>>
 
+\* Schedule(zero time) returned: the task was taken out of the queues and the schedule
+Unsched(k) ==
+    /\ k \in T /\ pend' = [pend EXCEPT ![k] = "none"]
+    /\ prioQ' = Remove(prioQ, k) /\ normQ' = Remove(normQ, k)
+    /\ qsubT' = [qsubT EXCEPT ![k] = -1] /\ lastKind' = [lastKind EXCEPT ![k] = "none"]
+    /\ UNCHANGED <<n, ordered, running, committed, subs, begins, cancelled, schedAt, holder, mdMs>>
+
 CancelRet(k) ==
     /\ k \in T /\ cancelled' = [cancelled EXCEPT ![k] = TRUE] /\ pend' = [pend EXCEPT ![k] = "none"]
     /\ holder' = IF holder = k THEN 0 ELSE holder
     /\ prioQ' = Remove(prioQ, k) /\ normQ' = Remove(normQ, k)      \* a cancelled task is skipped by the queue
-    /\ UNCHANGED <<n, ordered, running, committed, subs, begins, schedAt>>
+    /\ UNCHANGED <<n, ordered, running, committed, subs, begins, schedAt, mdMs, qsubT, lastKind>>
 
 \* a handler decided to start task k (linearization point of the start: state checks passed under the task lock)
-Checked(k, t) ==
+Checked(k, t, by) ==
     /\ k \in T
+    \* the schedule handler starts a task itself only when the max delay of a queued task has expired (or the time
+    \* of a schedule entry placed over a queued one has come): never a task that still waits within its max delay
+    /\ (by = "sh" /\ qsubT[k] >= 0) =>
+          (IF lastKind[k] = "schedule" THEN t >= schedAt[k] - EarlyMs ELSE t >= qsubT[k] + mdMs - EarlyMs)
+    /\ qsubT' = [qsubT EXCEPT ![k] = -1]
     /\ ~cancelled[k]                                        \* never started once cancelled while waiting
     /\ (pend[k] = "sched") => t >= schedAt[k] - EarlyMs      \* an only-scheduled task is not started early
     /\ begins[k] + (IF committed[k] THEN 1 ELSE 0) < subs[k] \* not more often than submitted
@@ -60,7 +80,7 @@ Checked(k, t) ==
           /\ k = (IF prioQ # <<>> THEN Head(prioQ) ELSE IF normQ # <<>> THEN Head(normQ) ELSE 0)
     /\ holder' = IF ordered THEN k ELSE holder
     /\ prioQ' = Remove(prioQ, k) /\ normQ' = Remove(normQ, k)
-    /\ UNCHANGED <<n, ordered, running, subs, begins, cancelled, schedAt>>
+    /\ UNCHANGED <<n, ordered, running, subs, begins, cancelled, schedAt, mdMs, lastKind>>
 
 Begin(k, t) ==
     /\ k \in T /\ ~running[k]                               \* never concurrently with itself
@@ -68,12 +88,12 @@ Begin(k, t) ==
     /\ running' = [running EXCEPT ![k] = TRUE] /\ committed' = [committed EXCEPT ![k] = FALSE]
     /\ begins' = [begins EXCEPT ![k] = @ + 1]
     /\ pend' = [pend EXCEPT ![k] = "none"]                  \* this run comes after every submission so far
-    /\ UNCHANGED <<n, ordered, subs, cancelled, schedAt, prioQ, normQ, holder>>
+    /\ UNCHANGED <<n, ordered, subs, cancelled, schedAt, prioQ, normQ, holder, mdMs, qsubT, lastKind>>
 
 End(k) ==
     /\ k \in T /\ running[k] /\ running' = [running EXCEPT ![k] = FALSE]
     /\ holder' = IF holder = k THEN 0 ELSE holder
-    /\ UNCHANGED <<n, ordered, committed, subs, begins, cancelled, pend, schedAt, prioQ, normQ>>
+    /\ UNCHANGED <<n, ordered, committed, subs, begins, cancelled, pend, schedAt, prioQ, normQ, mdMs, qsubT, lastKind>>
 
 \* quiescence: nothing that was submitted (and whose time has come) and not cancelled is still waiting
 Final(t) ==
